@@ -81,13 +81,16 @@ theorem c05_nested_return_main (s : State) (c : Nat) (hc : s.cur = some c) (hcl 
 
 /-- the same for ordinary code inside an installed queue (`install_queue_and_call` body) -/
 theorem c05_no_preempt_in_block (s : State) (cs : List Nat) (m : Mode) (rev : Bool) (hc : s.cur = none)
-    (ha : s.active = true) :
+    (ha : s.active = true) (hm : m ≠ Mode.par) :
     (step s (Act.wake cs m rev)).cur = none
     ∧ (step s (Act.wake cs m rev)).ready = s.ready ++ handles s.st cs rev
     ∧ (step s (Act.wake cs m rev)).deq = s.deq
     ∧ (step s (Act.wake cs m rev)).runs = s.runs
     ∧ (∀ i, (step s (Act.wake cs m rev)).st i = St.running ↔ s.st i = St.running) := by
-  simpa [step, hc, mainStep, mainWake, ha, enqueue] using collect_running s.st cs
+  cases m with
+  | par => exact absurd rfl hm
+  | discard => simpa [step, hc, mainStep, mainWake, ha, enqueue] using collect_running s.st cs
+  | await => simpa [step, hc, mainStep, mainWake, ha, enqueue] using collect_running s.st cs
 
 /-- a queued coroutine has not started: it is in the queue exactly once, its status is `ready`, it is not the
 one executing -/
@@ -199,11 +202,13 @@ theorem c05_await_requeue {s : State} (h : Reachable s) (c : Nat) (cs : List Nat
   simpa using this
 
 /-- **Exactly once**: every time a coroutine was made ready it was resumed exactly once or its handle is
-pending in exactly one place (ready queue or `suspend_now` loop), never in two, and it is pending iff its
-status is `ready`. -/
+pending in exactly one place (ready queue, `suspend_now` loop, or a job handed to a pool worker / new thread),
+never in two, and it is pending iff its status is `ready`. -/
 theorem c05_once {s : State} (h : Reachable s) (i : Nat) :
-    s.made.count i = s.runs.count i + (s.ready.count i + (loopIds s.base).count i)
-    ∧ s.ready.count i + (loopIds s.base).count i = if s.st i = St.ready then 1 else 0 := by
+    s.made.count i = s.runs.count i
+        + (s.ready.count i + (loopIds s.base).count i + (jobIds s.jobs).count i)
+    ∧ s.ready.count i + (loopIds s.base).count i + (jobIds s.jobs).count i
+        = if s.st i = St.ready then 1 else 0 := by
   have hI := reachable_inv h
   have := hI.once i
   exact ⟨by omega, hI.handle_once i⟩
@@ -252,6 +257,34 @@ theorem c05_resume_only_suspended {s : State} (h : Reachable s) (a : Act) (x : N
           have : 0 < (handles s.st cs rev).count out := List.count_pos_iff.2 hm
           unfold Hit at hcnt
           right; grind [wakeable]
+      | par =>
+        simp only [coStep, postJob] at hx
+        split at hx <;> (left; simpa using hx)
+    | parkPar =>
+      exact key _ St.pparked (mid_suspend s c St.pparked hI hc (by simp) (by simp) (by simp)) rfl (by simp) (by simp) hx
+    | wakePar d =>
+      simp only [coStep, wakePar] at hx
+      split at hx <;> (left; simpa using hx)
+    | hop =>
+      have hm := mid_coHop s c hI hc
+      have h1 := settle_cur' _ hm x hx
+      have h2 := hm.handle_once x
+      have h3 := hI.stacked_once x
+      have h4 := hI.handle_once x
+      simp only [jobIds_snoc, List.count_append, List.count_singleton] at h1 h2
+      right; grind [upd_apply]
+    | hopCur =>
+      simp only [coStep, coHopCur] at hx
+      split at hx
+      · have hm := mid_coHop s c hI hc
+        have h1 := settle_cur' _ hm x hx
+        have h2 := hm.handle_once x
+        have h3 := hI.stacked_once x
+        have h4 := hI.handle_once x
+        simp only [jobIds_snoc, List.count_append, List.count_singleton] at h1 h2
+        right; grind [upd_apply]
+      · left; simpa using hx
+    | job => left; simpa [coStep] using hx
     | park =>
       exact key _ St.parked (mid_suspend s c St.parked hI hc (by simp) (by simp) (by simp)) rfl (by simp) (by simp) hx
     | parkNext =>
@@ -271,7 +304,7 @@ theorem c05_resume_only_suspended {s : State} (h : Reachable s) (a : Act) (x : N
         simp at hx; subst hx
         have := hI.handle_once y; simp [hq] at this
         right; grind
-    | start d =>
+    | start d fut =>
       simp only [coStep, coStart] at hx
       split at hx
       next hd => simp at hx; subst hx; right; simp [hd]
@@ -300,20 +333,46 @@ theorem c05_resume_only_suspended {s : State} (h : Reachable s) (a : Act) (x : N
   next hc =>
     cases a with
     | wake cs m rev =>
-      simp only [mainStep, mainWake] at hx
-      split at hx
-      · simp [enqueue, hc] at hx
-      next ha =>
+      have mw : (mainWake s cs rev).cur = some x → s.cur = some x ∨ (s.st x ≠ St.running ∧ s.st x ≠ St.done) := by
+        intro hx
+        simp only [mainWake] at hx
         split at hx
-        · simp [hc] at hx
-        next =>
-          have hm := mid_mainWake s cs rev hI hc ha
+        · simp [enqueue, hc] at hx
+        next ha =>
+          split at hx
+          · simp [hc] at hx
+          next =>
+            have hm := mid_mainWake s cs rev hI hc ha
+            have := settle_cur _ hm x hx
+            dsimp only at this
+            have hst := (collect_spec cs s.st x).1
+            unfold Hit at hst
+            right; grind [wakeable]
+      cases m with
+      | discard => exact mw (by simpa [mainStep] using hx)
+      | await => exact mw (by simpa [mainStep] using hx)
+      | par =>
+        simp only [mainStep, postJob] at hx
+        split at hx <;> simp [hc] at hx
+    | wakePar d =>
+      simp only [mainStep, wakePar] at hx
+      split at hx <;> simp [hc] at hx
+    | job =>
+      simp only [mainStep, mainJob] at hx
+      split at hx
+      next hidle =>
+        split at hx
+        next hs k js hj =>
+          have hm := mid_mainJob s hs k js hI hc hidle hj
           have := settle_cur _ hm x hx
           dsimp only at this
-          have hst := (collect_spec cs s.st x).1
-          unfold Hit at hst
-          right; grind [wakeable]
-    | start d =>
+          right; grind
+        next => simp [hc] at hx
+      next => simp [hc] at hx
+    | parkPar => simp [mainStep, hc] at hx
+    | hop => simp [mainStep, hc] at hx
+    | hopCur => simp [mainStep, hc] at hx
+    | start d fut =>
       simp only [mainStep, mainStart] at hx
       split at hx
       next hd =>
@@ -338,13 +397,15 @@ theorem c05_resume_only_suspended {s : State} (h : Reachable s) (a : Act) (x : N
 
 /-- **Full drain**: whenever ordinary code is in control outside every `install_queue_and_call` block (the
 outermost coroutine activation has returned), the ready queue is empty, the thread has left coroutine mode,
-nothing is pending anywhere (no coroutine is ready, running or blocked in a nested start), everything that was
+nothing is pending on this thread (no coroutine is running or blocked in a nested start, and a coroutine is
+ready only if its handle was handed to another thread: pool worker / `parallel` thread), everything that was
 appended to the queue was taken from it, and every coroutine was resumed exactly as often as it was made
-ready. -/
+ready, not counting the handles other threads still hold. The same holds for those threads when they are done
+with a job (`Act.job` runs in this very context). -/
 theorem c05_drain {s : State} (h : Reachable s) (hc : s.cur = none) (hb : s.blocks = []) :
     s.ready = [] ∧ s.active = false ∧ s.base = none ∧ s.calls = [] ∧ s.deq = s.enq
-    ∧ (∀ i, s.st i ≠ St.ready ∧ s.st i ≠ St.running ∧ s.st i ≠ St.stacked)
-    ∧ (∀ i, s.runs.count i = s.made.count i) := by
+    ∧ (∀ i, (s.st i = St.ready → i ∈ jobIds s.jobs) ∧ s.st i ≠ St.running ∧ s.st i ≠ St.stacked)
+    ∧ (∀ i, s.runs.count i + (jobIds s.jobs).count i = s.made.count i) := by
   have hI := reachable_inv h
   obtain ⟨hbase, hcl, hnr, hab⟩ := main_facts hI hc
   have hrd := hI.idle hb hbase
@@ -358,7 +419,9 @@ theorem c05_drain {s : State} (h : Reachable s) (hc : s.cur = none) (hb : s.bloc
     have h1 := hI.handle_once i
     have h2 := hI.stacked_once i
     simp [hrd, hbase, hcl, loopIds] at h1 h2
-    exact ⟨h1, hnr i, h2⟩
+    refine ⟨fun hr => ?_, hnr i, h2⟩
+    simp [hr] at h1
+    exact List.count_pos_iff.1 (by omega)
   · intro i
     have := hI.once i
     simp [hrd, hbase, loopIds] at this
@@ -385,7 +448,7 @@ Program: ordinary code starts coroutine 0; 0 detaches 1 and 2 (suspend points dr
 2, 0, 1 finish. -/
 
 def demo : List Act :=
-  [Act.start 0, Act.wake [1, 2] Mode.discard false, Act.pause, Act.pause, Act.fin, Act.fin, Act.fin]
+  [Act.start 0 true, Act.wake [1, 2] Mode.discard false, Act.pause, Act.pause, Act.fin, Act.fin, Act.fin]
 
 example : Reachable (run init demo) := ⟨_, rfl⟩
 
@@ -403,10 +466,10 @@ example : (run init (demo.take 5)).cur = some 0 ∧ (run init (demo.take 5)).deq
 /-- awaited suspend point: the last handle runs first, the first one and the awaiting coroutine are queued;
 nested `start()` inside a coroutine and an `install_queue_and_call` block of ordinary code -/
 example :
-    (run init [Act.start 0, Act.wake [1, 2] Mode.await false]).cur = some 2
-    ∧ (run init [Act.start 0, Act.wake [1, 2] Mode.await false]).ready = [1, 0]
-    ∧ (run init [Act.start 0, Act.start 1, Act.park]).cur = some 0
-    ∧ (run init [Act.start 0, Act.start 1, Act.park]).st 1 = St.parked
+    (run init [Act.start 0 true, Act.wake [1, 2] Mode.await false]).cur = some 2
+    ∧ (run init [Act.start 0 true, Act.wake [1, 2] Mode.await false]).ready = [1, 0]
+    ∧ (run init [Act.start 0 true, Act.start 1 true, Act.park]).cur = some 0
+    ∧ (run init [Act.start 0 true, Act.start 1 true, Act.park]).st 1 = St.parked
     ∧ (run init [Act.enter, Act.wake [3] Mode.discard false]).cur = none
     ∧ (run init [Act.enter, Act.wake [3] Mode.discard false]).ready = [3]
     ∧ (run init [Act.enter, Act.wake [3] Mode.discard false, Act.leave]).cur = some 3
@@ -414,10 +477,10 @@ example :
 
 /-- nested start: 0 queues 2, starts 1; 1 parks; 0 continues with 2 still queued -/
 example :
-    (run init [Act.start 0, Act.wake [2] Mode.discard false, Act.start 1]).calls = [0]
-    ∧ (run init [Act.start 0, Act.wake [2] Mode.discard false, Act.start 1, Act.park]).cur = some 0
-    ∧ (run init [Act.start 0, Act.wake [2] Mode.discard false, Act.start 1, Act.park]).ready = [2]
-    ∧ (run init [Act.enter, Act.wake [0] Mode.discard false, Act.start 1]).base = some Base.callMain
-    ∧ (run init [Act.enter, Act.wake [0] Mode.discard false, Act.start 1, Act.park]).ready = [0] := by decide
+    (run init [Act.start 0 true, Act.wake [2] Mode.discard false, Act.start 1 true]).calls = [0]
+    ∧ (run init [Act.start 0 true, Act.wake [2] Mode.discard false, Act.start 1 true, Act.park]).cur = some 0
+    ∧ (run init [Act.start 0 true, Act.wake [2] Mode.discard false, Act.start 1 true, Act.park]).ready = [2]
+    ∧ (run init [Act.enter, Act.wake [0] Mode.discard false, Act.start 1 true]).base = some Base.callMain
+    ∧ (run init [Act.enter, Act.wake [0] Mode.discard false, Act.start 1 true, Act.park]).ready = [0] := by decide
 
 end Cocls.Exec
